@@ -2,7 +2,9 @@
 
 (a) write/read round trip: Datum.tla enumerates data, computes the reader-free constructor,
     the external representation `ext` and two alternative spellings; each datum becomes eight
-    engine cases (w, rt, rd-ext, rd-alt1, rd-alt2, q-ext, q-alt1, q-alt2).
+    engine cases (w, rt, rd-ext, rd-alt1, rd-alt2, q-ext, q-alt1, q-alt2).  The escape-syntax generator
+    (MODE = "esc") adds, per context x syntax x hex-digit string, the character the text must denote
+    (rd-esc, q-esc) or that it must be rejected (rej-esc; parsecheck class "reject").
 (b) parse/print idempotence + spans: every text the spec produced, through harness/bin/parsecheck.
 (c) totality: Datum.tla's Strings generator; every text goes to parsecheck (no panic, spans inside,
     idempotence if accepted) and to the engine (class noncrash).
@@ -17,6 +19,7 @@ import hashlib
 import json
 import os
 import random
+import re
 
 import vlib
 
@@ -33,6 +36,9 @@ DRAIN = {"class": "any", "src": (
     "(let* ((c (command \"true\" (list))) (u (set-piped-stdout! c)) (ch (Ok->value (spawn-process c))) "
     "(x (with-handler (lambda (e) (void)) (read (child-stdout ch))))) (wait ch) x)))) "
     "(if (or (void? x) (eof-object? x)) 0 (loop (- n 1)))) 0)))")}
+
+
+NONASCII_WS_SYMBOL = re.compile(r"string->symbol \(list->string \(map integer->char \(list[^)]* (160|8232|12288)\b")
 
 
 def text_of(codes):
@@ -68,10 +74,38 @@ def datum_cases(records, keep=None):
                 steps = [{"src": SENTINEL + dec(st["src"]), "class": "ok", "emit": ["7"] + st["emit"]}, DRAIN]
             else:
                 steps = [{"src": dec(st["src"]), "class": "ok", "emit": st["emit"]}]
-            cases.append({"id": f"d-{h}-{st['name']}", "fresh": False,
+            # isolation: a written symbol with non-ASCII white space in its name wedges Steel's reader for
+            # good (no drain can help: finding C12-read-wedged-after-multibyte-whitespace) -> own engine
+            fresh = st["name"] == "rt" and bool(NONASCII_WS_SYMBOL.search(c["ctor"]))
+            cases.append({"id": f"d-{h}-{st['name']}", "fresh": fresh,
                           "tag": f"{st['name']}|{ext}", "steps": steps,
                           "reads": st["reads"],
                           "nodes": c["nodes"]})
+    return cases, texts
+
+
+def esc_cases(records):
+    """Escape-syntax cases (MODE = "esc"): accepted texts are read at run time and through quote and must
+    give the character the spec computed; rejected texts must be rejected by both readers."""
+    cases, texts = [], {}
+    for c in records:
+        if c.get("kind") != "esc":
+            continue
+        text = text_of(c["text"])
+        h = sha(text)
+        if c["accept"]:
+            texts.setdefault(text, ("esc", "accept"))
+            for st in c["steps"]:
+                if st["reads"]:
+                    steps = [{"src": SENTINEL + dec(st["src"]), "class": "ok", "emit": ["7"] + st["emit"]}, DRAIN]
+                else:
+                    steps = [{"src": dec(st["src"]), "class": "ok", "emit": st["emit"]}]
+                cases.append({"id": f"x-{h}-{st['name']}", "fresh": False, "tag": f"{st['name']}|{text}",
+                              "steps": steps, "reads": st["reads"], "nodes": 1})
+        else:
+            texts.setdefault(text, ("esc-reject", "reject"))
+            cases.append({"id": f"x-{h}-rej", "fresh": False, "tag": f"rej-esc|{text}", "reads": False, "nodes": 1,
+                          "steps": [{"src": f"(emit (quote {text}))", "class": "err", "emit": []}]})
     return cases, texts
 
 
@@ -114,6 +148,11 @@ def port_cases(records, rnd, n):
                f"(emit (equal? {b['ctor']} (read c12p@@))) (emit (eof-object? (read c12p@@)))")
         out.append({"id": f"port-{i:04d}", "fresh": False, "tag": f"port|{t12} / {text_of(d['ext'])}", "reads": True,
                     "steps": [{"src": src, "class": "ok", "emit": ["7", "#true", "#true", "#true", "#true"]}, DRAIN]})
+    # whatever the first port held after its datum (here: Unicode white space), a second port is unaffected
+    for i, t in enumerate(["1\u00a0", "(1) \u2028 ", "\"s\"\u3000", "#\\a\u00a0\u00a0"]):
+        src = (f"(read (open-input-string {mkstr(t)})) (emit {READ7})")
+        out.append({"id": f"port-ws-{i}", "fresh": True, "tag": f"port-ws|{t}", "reads": True,
+                    "steps": [{"src": src, "class": "ok", "emit": ["7"]}]})
     return out
 
 
@@ -174,6 +213,10 @@ def selftest(work, sample_w):
     sv = vlib.replay(sw, work, jobs=1, name="c12strict")
     if len(sw) < 2 or any(v["pass"] for v in sv):
         raise vlib.ToolError("self-test: the pure-R7RS oracle (#t, #u8(0 255 16)) was not told apart from Steel's output")
+    m3 = {"id": "mutant-rej", "fresh": True, "tag": "mutant", "steps": [
+        {"src": '(emit (quote "\\x100000;"))', "class": "err", "emit": []}]}
+    if vlib.replay([m3], work, jobs=1, name="c12mut3")[0]["pass"]:
+        raise vlib.ToolError("self-test: an accepted escape expected to be rejected was not reported")
     pm = [parse_case("(1 2", "mutant", "accept"), parse_case("(1 2)", "mutant", "reject")]
     pv = vlib.replay(pm, work, jobs=1, name="c12mutp", binary="parsecheck")
     if any(v["pass"] for v in pv):
@@ -211,6 +254,10 @@ def run(tier, seed):
         r.notes.append(f"{dropped} data not replayed (seeded sample of the data with >= 2 quotation forms / 5 nodes)")
     dcases, texts = datum_cases(records, keep=lambda c: (c["qn"] < 2 and c["nodes"] < 5) or c["ctor"] in kept)
     selftest(work, next(c for c in dcases if c["id"].endswith("-w")))
+    res = vlib.run_tlc("Datum", "MC_Datum_esc.cfg", work, workers=4, timeout=300)
+    r.add_tlc(res)
+    xcases, xtexts = esc_cases(res["cases"])
+    dcases += xcases
     dcases += port_cases(records, rnd, 40 if quick else 400)
     run_cases, verdicts = run_engine_data(dcases, work, 300, r)
     r.add_cases(run_cases, verdicts)
@@ -233,6 +280,11 @@ def run(tier, seed):
     # ---- (b)+(c) parser level
     pcases = [parse_case(t, fam, "accept") for t, fam in sorted(texts.items())]
     have = set(c["id"] for c in pcases)
+    for t, (fam, expect) in sorted(xtexts.items()):
+        c = parse_case(t, fam, expect)
+        if c["id"] not in have:
+            have.add(c["id"])
+            pcases.append(c)
     for t in strings:
         c = parse_case(t, "text", "any")
         if c["id"] not in have:
@@ -246,7 +298,7 @@ def run(tier, seed):
     # (quick: without the texts of the deepest data configuration)
     deep = {text_of(c[f]) for c in records if c.get("kind") == "datum" and "core" in c["cfg"] and quick
             for f in ("ext", "alt1", "alt2")}
-    ecases = [engine_text_case(t) for t in strings + sorted(set(texts) - set(strings) - deep) if "@@" not in t]
+    ecases = [engine_text_case(t) for t in strings + sorted((set(texts) | set(xtexts)) - set(strings) - deep) if "@@" not in t]
     everd = replay_batched(ecases, work, "c12e")
     r.add_cases(ecases, everd, nontrivial=lambda c: len(c["steps"][0]["src"]) > 0)
 
